@@ -164,6 +164,30 @@ pub fn c10() -> i32 {
             })
             .collect();
         scns.extend(slow);
+        // equal receipt at the drop, but a straggler of the dead peer reaches ONE survivor after
+        // that survivor has registered the drop (within the 5 s the endpoint still listens)
+        let stragglers: Vec<Scenario> = scenarios("c10-split-straggler", "1+1+1", if t { &[1, 2, 8] } else { &[2, 8] }, &[0], &[false, true], if t { 3..9 } else { 4..7 }, 0, (100, 300), 1)
+            .into_iter()
+            .flat_map(|s| {
+                [(0usize, 19), (0, 25), (1, 21), (0, 40)].into_iter().map(move |(to_survivor, late_by)| {
+                    let mut x = s.clone();
+                    let dead = x.peers.len() - 1;
+                    let c = x.peers[dead].addr;
+                    let to = x.peers[to_survivor].addr;
+                    let death = x.script.iter().find(|i| i.action == Action::Die).map(|i| i.round).unwrap_or(5);
+                    // the last two packets of the dead peer towards that survivor arrive late; the
+                    // same packets towards the other survivor are lost, so both held equal amounts
+                    for back in 1..=2 {
+                        x.scripted.push(ScriptedFate { from: c, to, round: death - back, classes: CLASS_INPUT, fate: Fate::Delay(late_by) });
+                        let other = x.peers[1 - to_survivor].addr;
+                        x.scripted.push(ScriptedFate { from: c, to: other, round: death - back, classes: CLASS_INPUT, fate: Fate::Drop });
+                    }
+                    x.name = format!("{} straggler to survivor {to_survivor} late by {late_by}", x.name);
+                    x
+                })
+            })
+            .collect();
+        scns.extend(stragglers);
         // no stall before the drop is registered: window larger than the timeout, asymmetric
         // slow link between the survivors (one still owes the other corrections around the
         // cut-off when Disconnected is raised)
